@@ -1,10 +1,95 @@
 import DFV.JsonField
+import DFV.Model.C07
 namespace DFV.Drv
-open Lean DFV
+open Lean DFV DFV.C07
 
-/-- driver ops of property C07 (stub: no ops yet) -/
+/-- `null` → centre, `{"point": q}`, `{"range": [q, q]}`, anything else → malformed -/
+def selArgOfJson (j : Json) : R SelArg :=
+  match fldOpt j "arg" with
+  | none => pure .centre
+  | some v =>
+    match fldOpt v "point", fldOpt v "range" with
+    | some p, _ => do pure (.point (← ratOfJson p))
+    | none, some r => do
+        let xs ← listOf ratOfJson r
+        match xs with
+        | [x, y] => pure (.range x y)
+        | _ => pure .bad
+    | none, none => pure .bad
+
+def selIdxToJson (a : Nat) : SelIdx → Json
+  | .plane c k => Json.mkObj [("axis", .num (JsonNumber.fromNat a)), ("kind", .str "plane"),
+      ("c", ratsJ [c]), ("k", natsJ [k])]
+  | .range c1 c2 k1 k2 => Json.mkObj [("axis", .num (JsonNumber.fromNat a)), ("kind", .str "range"),
+      ("c", ratsJ [c1, c2]), ("k", natsJ [k1, k2])]
+
+def padWsOfJson (j : Json) : R (List PadW) := do
+  listOf (fun e => do
+    pure { dim := ← strOfJson (← fld e "dim"), lo := ← intOfJson (← fld e "lo"),
+           hi := ← intOfJson (← fld e "hi") }) (← fld j "pad")
+
+def padModeOfJson (j : Json) : R PadMode := do
+  match ← strOfJson (← fld j "mode") with
+  | "constant" => pure .constant
+  | "edge" => pure .edge
+  | "wrap" => pure .wrap
+  | "symmetric" => pure .symmetric
+  | "reflect" => pure .reflect
+  | s => throw s!"unknown pad mode {s}"
+
+def itemOfJson (j : Json) : R Item := do
+  let it ← fld j "item"
+  match fldOpt it "name" with
+  | some n => pure (.name (← strOfJson n))
+  | none => pure (.region (← regionOfJson (← fld it "region")))
+
+def selOutToJson : SelOut → Json
+  | .field f => Json.mkObj [("field", fldToJson f)]
+  | .values v => Json.mkObj [("values", ratsJ v)]
+
+/-- driver ops of property C07 -/
 def c07 (op : String) (j : Json) : Option (R Json) :=
   match op with
+  | "sel_convert" => some do
+      let m ← meshOfJson (← fld j "mesh")
+      let dim ← strOfJson (← fld j "dim")
+      let arg ← selArgOfJson j
+      pure (resJ (fun (p : Nat × SelIdx) => selIdxToJson p.1 p.2) (selConvert m dim arg))
+  | "mesh_sel" => some do
+      let m ← meshOfJson (← fld j "mesh")
+      let dim ← strOfJson (← fld j "dim")
+      let arg ← selArgOfJson j
+      pure (resJ meshToJson (selMesh m dim arg))
+  | "field_sel" => some do
+      let f ← fldOfJson (← fld j "field")
+      let dim ← strOfJson (← fld j "dim")
+      let arg ← selArgOfJson j
+      pure (resJ selOutToJson (selFld f dim arg))
+  | "mesh_getitem" => some do
+      let m ← meshOfJson (← fld j "mesh")
+      let it ← itemOfJson j
+      pure (resJ meshToJson (getMesh m it))
+  | "field_getitem" => some do
+      let f ← fldOfJson (← fld j "field")
+      let it ← itemOfJson j
+      pure (resJ fldToJson (getItem f it))
+  | "region2slices" => some do
+      let m ← meshOfJson (← fld j "mesh")
+      let r ← regionOfJson (← fld j "region")
+      pure (resJ (listJ fun (p : Nat × Nat) => natsJ [p.1, p.2]) (region2slices m r))
+  | "mesh_pad" => some do
+      let m ← meshOfJson (← fld j "mesh")
+      let pw ← padWsOfJson j
+      pure (resJ meshToJson (padMesh m pw))
+  | "field_pad" => some do
+      let f ← fldOfJson (← fld j "field")
+      let pw ← padWsOfJson j
+      let mode ← padModeOfJson j
+      pure (resJ fldToJson (padFld f pw mode))
+  | "resample" => some do
+      let f ← fldOfJson (← fld j "field")
+      let n ← ints j "n"
+      pure (resJ fldToJson (resample f n))
   | _ => none
 
 end DFV.Drv
